@@ -110,17 +110,20 @@ def pElements (dateP : List Char → Option Nat) (withPolicies : Bool) (fuel : N
       | .ok e r => pElements dateP withPolicies fuel n (space0 r) (acc.add e)
       | _ => none
 
-/-- `parse_block_source` -/
-def parseBlockSource (dateP : List Char → Option Nat) (s : List Char) : Option Source :=
-  let fuel := fuelOf s
+/-- `parse_block_source`, with the fuel of the statement parsers and the bound of the loop explicit -/
+def parseBlockSourceWith (dateP : List Char → Option Nat) (fuel n : Nat) (s : List Char) : Option Source :=
   -- `opt(terminated(terminated(consumed(scopes), sep), space0))`
   match pScopes fuel s with
   | .fail => none
-  | .err => pElements dateP false fuel (s.length + 2) s ⟨[], [], [], [], []⟩
+  | .err => pElements dateP false fuel n s ⟨[], [], [], [], []⟩
   | .ok scs r =>
     match pSep r with
-    | some r' => pElements dateP false fuel (s.length + 2) (space0 r') ⟨scs, [], [], [], []⟩
-    | none => pElements dateP false fuel (s.length + 2) s ⟨[], [], [], [], []⟩
+    | some r' => pElements dateP false fuel n (space0 r') ⟨scs, [], [], [], []⟩
+    | none => pElements dateP false fuel n s ⟨[], [], [], [], []⟩
+
+/-- `parse_block_source` -/
+def parseBlockSource (dateP : List Char → Option Nat) (s : List Char) : Option Source :=
+  parseBlockSourceWith dateP (fuelOf s) (s.length + 2) s
 
 /-- `parse_source` -/
 def parseSource (dateP : List Char → Option Nat) (s : List Char) : Option Source :=
